@@ -40,7 +40,8 @@ class XL(ASTNode):
 
 @dataclass(frozen=True)
 class XS(XL):
-    pass
+    def __bool__(self) -> bool:  # falsy in a boolean context
+        return False
 
 
 @dataclass(frozen=True)
@@ -49,6 +50,9 @@ class XP(ASTNode):
     items: tuple[ASTNode, ...] = ()
     child: ASTNode | None = None
     more: tuple[ASTNode, ...] = ()      # a second tuple field, declared after the first
+
+    def __len__(self) -> int:  # container-like: falsy in a boolean context while `items` is empty (may still hold other children)
+        return len(self.items)
 
 
 U = Universe("c07", [
